@@ -97,7 +97,13 @@ func setYields(n int) {
 func genCfg(r *rand.Rand) cfg {
 	c := cfg{Pool: []string{"fixed", "generic"}[r.IntN(2)], Ordering: []string{"random", "fifo", "lifo"}[r.IntN(3)], Limit: 1 + r.IntN(4)}
 	c.Backlog = 1 + r.IntN(8)
+	if r.IntN(5) == 0 {
+		c.Backlog = 11 + r.IntN(14) // larger than the smallest sample window (10): the two numbers have nothing to do with each other
+	}
 	c.Callers = c.Limit + 1 + r.IntN(c.Backlog)
+	if c.Backlog > 10 && r.IntN(2) == 0 {
+		c.Callers = c.Limit + c.Backlog
+	}
 	c.Simple = c.Pool == "generic" && r.IntN(2) == 0
 	c.Yields = []int{0, 100, 1500}[r.IntN(3)]
 	c.SmallWin = r.IntN(2) == 0
